@@ -338,7 +338,7 @@ func writerReserveRules(c *Ctx, prop string) {
 		return
 	}
 	m := c.machine()
-	dom := &fold.IntDom{Name: "len(raw)", Lo: 0, Hi: 1 << 40}
+	dom := &fold.IntDom{Name: "len(raw)", Lo: 0, Hi: bigLen()}
 	paths, err := m.ExploreCells(res, []*fold.IntDom{dom}, func(m *fold.Machine, cells []fold.Int) []fold.Val {
 		return []fold.Val{fold.K(int64(1 + m.Choose("client", 2))), cells[0]}
 	}, nil)
@@ -390,7 +390,7 @@ func writerReserveRules(c *Ctx, prop string) {
 
 	// headerSize(s, n) == ws.HeaderSize({Length: n, Masked: client})
 	m3 := c.machine()
-	d3 := &fold.IntDom{Name: "n", Lo: 0, Hi: 1 << 40}
+	d3 := &fold.IntDom{Name: "n", Lo: 0, Hi: bigLen()}
 	hp, err := m3.ExploreCells(hsz, []*fold.IntDom{d3}, func(m *fold.Machine, cells []fold.Int) []fold.Val {
 		return []fold.Val{fold.K(int64(1 + m.Choose("client", 2))), cells[0]}
 	}, nil)
@@ -601,7 +601,7 @@ func writerMethodRules(c *Ctx, prop string) {
 		}
 		var problems []string
 		for _, r := range explore(f, m, func(mm *fold.Machine, cfg writerCfg) []fold.Val {
-			return []fold.Val{fold.SymSeq{Name: "p", Len: fold.Int{Lo: 0, Hi: 1 << 40, Name: "len(p)"}}}
+			return []fold.Val{fold.SymSeq{Name: "p", Len: fold.Int{Lo: 0, Hi: bigLen(), Name: "len(p)"}}}
 		}) {
 			if r.p.Abort != "" || r.p.Panic {
 				problems = append(problems, "undecided: "+r.p.Abort+panicNote(r.p))
